@@ -200,7 +200,39 @@ func bornoBinary() string {
 	return bornoPath
 }
 
+// runReplayFile re-runs a stored counterexample (a directory written by a check under
+// /verif/replays/<property>/) against the repository as it is now.
 func runReplayFile(path string) int {
-	fmt.Fprintln(os.Stderr, "replay of stored counterexamples: re-run the check that produced", path)
-	return 2
+	defer replayCleanup()
+	b, err := os.ReadFile(filepath.Join(path, "meta.json"))
+	if err != nil {
+		fmt.Fprintln(os.Stderr, "replay:", err)
+		return 2
+	}
+	var meta struct {
+		Pkg, Func, ID, Kind string
+		Args               []int64
+	}
+	if err := json.Unmarshal(b, &meta); err != nil {
+		fmt.Fprintln(os.Stderr, "replay:", err)
+		return 2
+	}
+	vb, err := os.ReadFile(filepath.Join(path, "vector.json"))
+	if err != nil {
+		fmt.Fprintln(os.Stderr, "replay:", err)
+		return 2
+	}
+	var vec []VecEntry
+	json.Unmarshal(vb, &vec)
+	j := &Job{Name: meta.Pkg + "." + meta.Func + fmt.Sprint(meta.Args), Pkg: meta.Pkg, Func: meta.Func, Args: meta.Args}
+	v := &Violation{Job: j.Name, ID: meta.ID, Kind: meta.Kind, Vector: vec}
+	replayProp = "manual"
+	replayViolation(nil, j, v)
+	fmt.Print(v.ReplayOut)
+	if v.Reproduced {
+		fmt.Printf("REPRODUCED %s (%s) against %s\n", meta.ID, meta.Kind, gCfg.Repo)
+		return 1
+	}
+	fmt.Printf("not reproduced: %s\n", meta.ID)
+	return 0
 }
